@@ -311,7 +311,65 @@ def _run(cfg, root, req, tls, cwd):
     return r, evs
 
 
+def enumerate_cases(tier, seed):
+    """start-up flavour: the server is configured to chroot, the kernel refuses (an unprivileged process); whatever
+    start-up does then, requests must not reach anything outside the configured root"""
+    for su in (False, True):
+        for cwd in ("cwd", "/"):
+            yield {"mode": "startup-chroot-refused", "setuid": su, "cwd": cwd}
+
+
+def _check_startup(case, ctx):
+    from pygopherd import initialization
+    from pgv.props import c19
+    S = world.fresh_dir("S")
+    root = os.path.join(S, "root")
+    os.mkdir(root)
+    old = os.getcwd()
+    try:
+        world.materialise(_root_spec(False, S), root)
+        os.mkdir(os.path.join(S, "cwd"))
+        world.materialise(_outside_spec("A"), S)
+        conf = c19._write_conf(S, root, {"chroot": True, "setuid": case["setuid"], "setgid": False})
+        trace = []
+        drive.reset_globals()
+        os.chdir({"cwd": os.path.join(S, "cwd"), "/": "/"}[case["cwd"]])
+        server = None
+        with c19._Patches(trace, "chroot"):
+            try:
+                server = initialization.initialize(conf)
+            except Exception:
+                server = None  # start-up aborted: nothing is served at all
+        drive._mime_inited = None
+        ctx.nontriv()
+        ctx.label("startup:chroot-refused", "startup:%s" % ("aborted" if server is None else "went-on"))
+        ctx.sample(case, cls="startup")
+        if server is None:
+            return []
+        fails = []
+        Sb = os.fsencode(S)
+        for req, tls in [(Sb + b"/secret.txt\r\n", False), (b"GET " + clients.pct(Sb) + b"/secret.txt HTTP/1.0\r\n\r\n", False),
+                         (Sb + b"/rootx\r\n", False), (b"gemini://h" + clients.pct(Sb) + b"/secret.txt\r\n", True),
+                         (b"/readme.txt\r\n", False)]:
+            with monitor.armed_for() as evs:
+                r = drive.serve(server.config, req, tls=tls, realfd=True, reset=False)
+            bad = monitor.outside_events(list(evs), root, [])
+            if b"SECRET-A" in r.response or bad:
+                fails.append(Fail("startup:serves-outside-the-configured-root",
+                                  "chroot was refused at start-up, start-up went on, and request %r %s" % (
+                                      req[:80], "returns content from outside the configured root" if b"SECRET-A" in r.response
+                                      else "opens %r outside it" % (bad[0],))))
+                break
+        return fails
+    finally:
+        os.chdir(old)
+        drive.reset_globals()
+        world.rmtree(S)
+
+
 def check_case(case, ctx):
+    if case.get("mode") == "startup-chroot-refused":
+        return _check_startup(case, ctx)
     _warmup()
     full = case["full"]
     S = world.fresh_dir("S")
